@@ -5,6 +5,7 @@ import (
 	"bytes"
 	"encoding/json"
 	"encoding/xml"
+	"errors"
 	"fmt"
 	"io"
 	"mime/multipart"
@@ -114,16 +115,17 @@ func encode(p Payload, format string) ([]byte, string) {
 
 var formats = []string{"form", "multipart", "json", "xml"}
 
+// media types with and without parameters; optional white space around ';' is legal (RFC 7231, OWS)
 func ctVariants(format, base string) []string {
 	switch format {
 	case "form":
-		return []string{base, base + "; charset=utf-8", base + ";charset=UTF-8"}
+		return []string{base, base + "; charset=utf-8", base + ";charset=UTF-8", base + " ; charset=utf-8", base + "\t;charset=utf-8"}
 	case "multipart":
-		return []string{base}
+		return []string{base, strings.Replace(base, "; boundary", " ; boundary", 1), strings.Replace(base, "; boundary", ";boundary", 1)}
 	case "json":
-		return []string{base, "application/json; charset=utf-8", "text/json", "application/vnd.api+json"[:0] + "application/json;q=1"}
+		return []string{base, "application/json; charset=utf-8", "text/json", "application/json;q=1", "application/json ; charset=utf-8", "text/json\t; charset=utf-8"}
 	default:
-		return []string{base, "text/xml", "application/xml; charset=utf-8", "text/xml;charset=utf-8"}
+		return []string{base, "text/xml", "application/xml; charset=utf-8", "text/xml;charset=utf-8", "application/xml ; charset=utf-8", "text/xml\t; charset=utf-8"}
 	}
 }
 
@@ -210,6 +212,20 @@ func prop(t *rapid.T) {
 		req.Header.Set("Content-Type", ct)
 	}
 	entry := rapid.SampledFrom([]string{"binding.Auto", "binding.Bind", "Context.Bind", "Context.AutoBind"}).Draw(t, "entry")
+	// binds are independent of each other: an earlier request whose body broke off in the middle (client gone,
+	// size limit) must leave nothing behind for this one
+	if rapid.IntRange(0, 3).Draw(t, "earlierBrokenBind") == 0 {
+		pf := rapid.SampledFrom(formats).Draw(t, "brokenFormat")
+		pb, pct := encode(genPayload(t, "x."), pf)
+		cut := rapid.IntRange(0, len(pb)).Draw(t, "brokenAfter")
+		breq := httptest.NewRequest("POST", "/x", io.MultiReader(bytes.NewReader(pb[:cut]), iotest.ErrReader(errors.New("connection reset"))))
+		breq.Header.Set("Content-Type", pct)
+		var junk Payload
+		if _, pv := bindVia(entry, breq, &junk); pv != nil {
+			t.Fatalf("a bind whose body breaks off after %d bytes (%s) panicked: %v", cut, pf, pv)
+		}
+		ev.Class("earlier-bind-with-broken-body")
+	}
 	var got Payload
 	err, pv := bindVia(entry, req, &got)
 	ev.Eval()
